@@ -150,7 +150,9 @@ Relay(a, b, pre, catch) ==
                   b |-> [s |-> b.s, i |-> b.i, t |-> b.t, v |-> b.v, ok |-> b.ok, acc |-> accB, why |-> wb]])
 Imps == [s : Src, i : Ids, t : Tgt, v : Vars, ok : BOOLEAN]
 
-Next == \/ \E s \in Src, i \in Ids, t \in Tgt, v \in Vars, ok \in BOOLEAN : Import(s, i, t, v, ok)
+\* unauthentic submissions are explored for the first variant only (they are refused before the variant matters)
+MinVar == CHOOSE x \in Vars : \A y \in Vars : x <= y
+Next == \/ \E s \in Src, i \in Ids, t \in Tgt, v \in Vars, ok \in BOOLEAN : (IF v = MinVar THEN TRUE ELSE ok) /\ Import(s, i, t, v, ok)
         \/ \E c \in GovChains : Black(c) \/ White(c) \/ Register(c) \/ Quit(c)
         \/ NewBlock
         \/ (RelayOn /\ \E a \in Imps, b \in Imps, pre \in BOOLEAN, catch \in BOOLEAN : Relay(a, b, pre, catch))
